@@ -5,9 +5,17 @@ Import ListNotations.
 
 (* ---------- what a history registers ---------- *)
 Definition item_of (e : ev) : list item :=
-  match e with Reg id p => [ICb id p] | Svc sid => [ISvc sid] | _ => [] end.
+  match e with Reg id p kids => [ICb id p kids] | Svc sid => [ISvc sid] | _ => [] end.
 Definition items (h : list ev) : list item := flat_map item_of h.
-Definition cb_ids (l : list item) : list nat := flat_map (fun i => match i with ICb id _ => [id] | _ => [] end) l.
+(* the callbacks registered before the teardown, in order of registration *)
+Definition cb_ids (l : list item) : list nat := flat_map (fun i => match i with ICb id _ _ => [id] | _ => [] end) l.
+(* all callbacks, including those registered by callbacks during the teardown *)
+Definition all_ids (l : list item) : list nat :=
+  flat_map (fun i => match i with ICb id _ kids => id :: map fst kids | _ => [] end) l.
+(* LIFO with registration during the teardown: what a callback registers runs right after it, last first *)
+Definition run_order (l : list item) : list nat :=
+  flat_map (fun i => match i with ICb id _ kids => id :: rev (map fst kids) | _ => [] end) (rev l).
+Definition no_kids (l : list item) : Prop := forall id p kids, In (ICb id p kids) l -> kids = [].
 Definition svc_ids (l : list item) : list nat := flat_map (fun i => match i with ISvc sid => [sid] | _ => [] end) l.
 Definition td_ids (o : list obs) : list nat := flat_map (fun x => match x with Td id _ => [id] | _ => [] end) o.
 Definition cancelled_ids (o : list obs) : list nat :=
@@ -45,13 +53,35 @@ Proof. apply flat_map_app. Qed.
 Lemma cb_ids_app a b : cb_ids (a ++ b) = cb_ids a ++ cb_ids b.
 Proof. apply flat_map_app. Qed.
 
-Lemma teardown_ids a dead : forall stk, td_ids (teardown a dead stk) = rev (cb_ids stk).
+Lemma td_ids_kids a (kids : list (nat * bool)) :
+  td_ids (map (fun k : nat * bool => Td (fst k) (if snd k then a else ANoArg)) kids) = map fst kids.
+Proof. induction kids as [|k r IH]; simpl; auto. now rewrite IH. Qed.
+
+Lemma teardown_ids a dead : forall stk, td_ids (teardown a dead stk) = run_order stk.
 Proof.
-  unfold teardown. intro stk. induction stk as [|i r IH]; auto.
-  change (rev (i :: r)) with (rev r ++ [i]). rewrite flat_map_app, td_ids_app, IH.
-  destruct i as [id p|sid]; simpl.
-  - reflexivity.
-  - rewrite app_nil_r. destruct dead as [d|]; [destruct (Nat.eqb d sid)|]; simpl; now rewrite app_nil_r.
+  unfold teardown, run_order. intro stk. induction (rev stk) as [|i r IH]; auto.
+  simpl. rewrite td_ids_app, IH. f_equal.
+  destruct i as [id p kids|sid]; simpl.
+  - rewrite td_ids_kids, map_rev. reflexivity.
+  - destruct dead as [d|]; [destruct (Nat.eqb d sid)|]; reflexivity.
+Qed.
+
+Lemma run_order_no_kids : forall stk, no_kids stk -> run_order stk = rev (cb_ids stk).
+Proof.
+  unfold run_order. induction stk as [|i r IH]; intro NK; auto.
+  change (rev (i :: r)) with (rev r ++ [i]). rewrite flat_map_app, IH by (intros id p kids H; apply (NK id p kids); simpl; auto).
+  destruct i as [id p kids|sid]; simpl.
+  - rewrite (NK id p kids) by (simpl; auto). reflexivity.
+  - now rewrite app_nil_r.
+Qed.
+
+Lemma in_run_order x : forall stk, In x (run_order stk) <-> In x (all_ids stk).
+Proof.
+  unfold run_order, all_ids. intro stk. rewrite !in_flat_map. split; intros (i & Hi & H); exists i.
+  - split; [now apply in_rev|]. destruct i as [id p kids|sid]; auto. simpl in *. destruct H as [H|H]; auto.
+    right. now apply in_rev.
+  - split; [now apply in_rev in Hi|]. destruct i as [id p kids|sid]; auto. simpl in *. destruct H as [H|H]; auto.
+    right. now apply in_rev in H.
 Qed.
 
 (* the teardown of the application is the LIFO walk over everything its code registered *)
@@ -67,13 +97,17 @@ Proof.
   - destruct (cause (run h)) as [[|]|]; intro E; inversion E; eauto.
 Qed.
 
-(* C15: however the application ends, every teardown callback registered on the root context
-   runs exactly once, in reverse order of registration *)
-Theorem callbacks_reverse_order : forall cli h o out, app cli h = Some (o, out) ->
-  td_ids o = rev (cb_ids (items h)).
+(* C15: however the application ends, every teardown callback registered on the root context --
+   before or during the teardown -- runs exactly once, in LIFO order *)
+Theorem callbacks_lifo : forall cli h o out, app cli h = Some (o, out) ->
+  td_ids o = run_order (items h).
 Proof.
   intros cli h o out E. destruct (ends_with_full_teardown cli h o out E) as (a & dead & ->). apply teardown_ids.
 Qed.
+
+Theorem callbacks_reverse_order : forall cli h o out, app cli h = Some (o, out) -> no_kids (items h) ->
+  td_ids o = rev (cb_ids (items h)).
+Proof. intros cli h o out E NK. rewrite (callbacks_lifo cli h o out E). now apply run_order_no_kids. Qed.
 
 Lemma NoDup_snoc {A} (l : list A) x : NoDup l -> ~ In x l -> NoDup (l ++ [x]).
 Proof.
@@ -87,14 +121,48 @@ Lemma NoDup_rev' {A} (l : list A) : NoDup l -> NoDup (rev l).
 Proof.
   induction 1 as [|x l Hx N IH]; simpl; [constructor|]. apply NoDup_snoc; auto. now rewrite <- in_rev.
 Qed.
+Lemma NoDup_app_swap {A} (a b : list A) : NoDup (a ++ b) -> NoDup (b ++ a).
+Proof.
+  revert b. induction a as [|x a IH]; intros b N; simpl in *; [now rewrite app_nil_r|].
+  inversion N; subst. apply NoDup_Add with (a := x) (l := b ++ a).
+  - clear. induction b; simpl; constructor. auto.
+  - split; [apply IH; auto|]. rewrite in_app_iff in *. tauto.
+Qed.
+Lemma NoDup_app_parts {A} (a b : list A) : NoDup (a ++ b) -> NoDup a /\ NoDup b /\ (forall x, In x a -> ~ In x b).
+Proof.
+  induction a as [|x a IH]; simpl; intro N; [repeat split; auto; constructor|].
+  inversion N; subst. destruct (IH H2) as (A1 & B1 & D). repeat split; auto.
+  - constructor; auto. intro X. apply H1. apply in_or_app. auto.
+  - intros y [->|Hy]; [intro X; apply H1; apply in_or_app; auto|auto].
+Qed.
+Lemma NoDup_app_build {A} (a b : list A) : NoDup a -> NoDup b -> (forall x, In x a -> ~ In x b) -> NoDup (a ++ b).
+Proof.
+  induction 1 as [|x a Hx N IH]; simpl; intros Nb D; auto. constructor.
+  - rewrite in_app_iff. intros [X|X]; [contradiction|apply (D x); auto].
+  - apply IH; auto.
+Qed.
+
+Lemma run_order_nodup : forall stk, NoDup (all_ids stk) -> NoDup (run_order stk).
+Proof.
+  unfold run_order. induction stk as [|i r IH]; intro N; [constructor|].
+  change (rev (i :: r)) with (rev r ++ [i]). rewrite flat_map_app. simpl. rewrite app_nil_r.
+  change (all_ids (i :: r)) with ((match i with ICb id _ kids => id :: map fst kids | _ => [] end) ++ all_ids r) in N.
+  apply NoDup_app_parts in N. destruct N as (Ni & Nr & D).
+  apply NoDup_app_build; [apply IH; exact Nr| |].
+  - destruct i as [id p kids|sid]; [|constructor]. inversion Ni; subst. constructor.
+    + now rewrite <- in_rev.
+    + now apply NoDup_rev'.
+  - intros x Hx Hi. apply (in_run_order x r) in Hx. apply (D x); auto.
+    destruct i as [id p kids|sid]; auto. simpl in *. destruct Hi as [Hi|Hi]; auto. right. now apply in_rev in Hi.
+Qed.
 
 Theorem callbacks_exactly_once : forall cli h o out, app cli h = Some (o, out) ->
-  NoDup (cb_ids (items h)) ->
-  NoDup (td_ids o) /\ (forall id, In id (td_ids o) <-> In id (cb_ids (items h))).
+  NoDup (all_ids (items h)) ->
+  NoDup (td_ids o) /\ (forall id, In id (td_ids o) <-> In id (all_ids (items h))).
 Proof.
-  intros cli h o out E N. rewrite (callbacks_reverse_order cli h o out E). split.
-  - now apply NoDup_rev'.
-  - intro id. now rewrite <- in_rev.
+  intros cli h o out E N. rewrite (callbacks_lifo cli h o out E). split.
+  - now apply run_order_nodup.
+  - intro id. apply in_run_order.
 Qed.
 
 (* every service task that did not crash is cancelled and waited for at its place in the stack *)
@@ -102,14 +170,16 @@ Lemma teardown_cancelled a : forall stk, cancelled_ids (teardown a None stk) = r
 Proof.
   unfold teardown. intro stk. induction stk as [|i r IH]; auto.
   change (rev (i :: r)) with (rev r ++ [i]). unfold cancelled_ids in *. rewrite flat_map_app, flat_map_app, IH.
-  destruct i as [id p|sid]; simpl; [now rewrite app_nil_r|reflexivity].
+  destruct i as [id p kids|sid]; simpl; [|reflexivity].
+  rewrite app_nil_r. induction (rev kids) as [|k ks IHk]; simpl; [now rewrite app_nil_r|exact IHk].
 Qed.
 
 (* ---------- what a pass_exception callback is handed ---------- *)
 Lemma teardown_args a dead stk id x : In (Td id x) (teardown a dead stk) -> x = a \/ x = ANoArg.
 Proof.
-  unfold teardown. rewrite in_flat_map. intros (i & _ & H). destruct i as [id' p|sid]; simpl in H.
-  - destruct H as [H|[]]. inversion H. destruct p; auto.
+  unfold teardown. rewrite in_flat_map. intros (i & _ & H). destruct i as [id' p kids|sid]; simpl in H.
+  - destruct H as [H|H]; [inversion H; destruct p; auto|].
+    apply in_map_iff in H. destruct H as (k & H & _). inversion H. destruct (snd k); auto.
   - destruct dead as [d|]; [destruct (Nat.eqb d sid)|]; simpl in H; try tauto; destruct H as [H|[]]; discriminate.
 Qed.
 
